@@ -33,6 +33,7 @@ CmpOK(r) ==
     /\ r.eq = EqSeq(r.a, r.b) /\ r.ne = ~EqSeq(r.a, r.b)
     \* comparing an array with ITSELF (the same object) is no exception: not reflexive when an element is not
     /\ r.self_eq = EqSeq(r.a, r.a) /\ r.sself_eq = r.self_eq /\ r.self_pcmp = LexPartial(r.a, r.a)
+    /\ r.self_ne = ~EqSeq(r.a, r.a)
     /\ r.pcmp = p
     /\ r.lt = (p = -1) /\ r.le = (p \in {-1, 0}) /\ r.gt = (p = 1) /\ r.ge = (p \in {0, 1})
     /\ r.seq = r.eq /\ r.sne = r.ne /\ r.slt = r.lt /\ r.sle = r.le /\ r.sgt = r.gt /\ r.sge = r.ge
